@@ -17,6 +17,7 @@ import zlib
 import xvlib
 
 EFFECTS = "openat,creat,write,pwrite64,writev,rename,renameat,renameat2,unlink,unlinkat,rmdir,mkdir,mkdirat,ftruncate,truncate,fsync,fdatasync,chmod,fchmod,fchmodat,chown,fchown,fchownat,link,linkat,symlink,symlinkat"
+IOERR_CALLS = ("write", "pwrite64", "writev", "ftruncate", "fsync", "fdatasync", "rename", "renameat", "renameat2", "link", "linkat")
 OPS = ["flush", "consolidate", "localput", "cacheput", "cacheinit"]
 HISTS = ["empty", "populated", "leftovers"]
 
@@ -72,7 +73,7 @@ def classify_path(rest):
     return "other"
 
 
-def one_scenario(binp, op, hist, seed, big, scratch_root, max_points):
+def one_scenario(binp, op, hist, seed, big, scratch_root, max_points, modes=("kill",)):
     """returns dict(evaluations, sigs, samples, violations, counters, inconclusive)"""
     res = {"evaluations": 0, "sigs": set(), "samples": [], "violations": [], "counters": {}, "inconclusive": []}
 
@@ -130,7 +131,7 @@ def one_scenario(binp, op, hist, seed, big, scratch_root, max_points):
             count("scenarios_with_every_crash_point", 1)
         shutil.rmtree(w0, ignore_errors=True)
         # pass 2
-        for (k, sc, pclass) in points:
+        for (k, sc, pclass) in (points if "kill" in modes else []):
             wk = os.path.join(root, f"w-{sc}-{k}")
             shutil.copytree(base, wk, symlinks=True)
             tk = os.path.join(root, f"t-{sc}-{k}.txt")
@@ -174,6 +175,53 @@ def one_scenario(binp, op, hist, seed, big, scratch_root, max_points):
                     s["checker_stats"] = verdict.get("stats")
                     res["samples"].append(s)
             shutil.rmtree(wk, ignore_errors=True)
+        # pass 3: I/O errors instead of kills.  The k-th data-carrying / committing call of the operating thread fails once
+        # (ENOSPC for writes, EIO otherwise), the process goes on and reports what the operation returned.  Same oracle as
+        # above (nothing partial under a final name, earlier records retrievable), plus: an operation that returned Ok has
+        # its own records in place.
+        for (k, sc, pclass) in (points if "ioerr" in modes else []):
+            if sc not in IOERR_CALLS:
+                continue
+            wk = os.path.join(root, f"e-{sc}-{k}")
+            shutil.copytree(base, wk, symlinks=True)
+            tk = os.path.join(root, f"et-{sc}-{k}.txt")
+            err = "ENOSPC" if sc in ("write", "pwrite64", "writev", "ftruncate") else "EIO"
+            try:
+                p = subprocess.run(["strace", "-f", "-qq", "-s", "200", "-o", tk, "-e", f"trace={EFFECTS},access", "-e", f"inject={sc}:error={err}:when={k}",
+                                    binp, "crash_victim"] + common + ["--dir", wk], env=e, stdout=subprocess.PIPE, stderr=subprocess.PIPE, text=True, timeout=120)
+            except subprocess.TimeoutExpired:
+                res["inconclusive"].append(f"error-injected victim timed out ({op}/{hist} {sc}#{k})")
+                shutil.rmtree(wk, ignore_errors=True)
+                continue
+            injected = any(f"= -1 {err}" in l and "(INJECTED)" in l for l in open(tk, errors="replace"))
+            result = None
+            for line in p.stdout.splitlines():
+                if line.startswith("XVRESULT "):
+                    result = line.split()[1]
+            if not injected or result is None:
+                # the call list differs from run to run (temp names, eviction victims), or the victim died (abort on I/O error)
+                count("io_error_runs_not_judged", 1)
+                shutil.rmtree(wk, ignore_errors=True)
+                continue
+            r = xv(binp, "crash_check", *common, "--dir", wk, "--phase", "post", "--pre", pre, "--op-result", result, "--fault", "ioerr")
+            verdict = None
+            for line in r.stdout.splitlines():
+                if line.startswith("XVCRASH "):
+                    verdict = json.loads(line[8:])
+            witness = {"engine": "crash", "mode": "io-error", "op": op, "hist": hist, "seed": seed, "big": big, "when": f"{sc}#{k}", "error": err, "operation_returned": result, "intended": f"{sc} on {pclass}"}
+            if verdict is None:
+                res["violations"].append({"kf_sig": f"crash-checker-died-{op}", "what": f"checker process died after an I/O-error run: rc={r.returncode} {r.stderr[-300:]}", "witness": witness})
+            elif not verdict["ok"]:
+                res["violations"].append({"kf_sig": f"{verdict['sig'].replace('after-crash', 'after-io-error')}-{op}-ioerr", "what": f"after {err} injected into {sc}#{k} (operation returned {result}): " + verdict["what"], "witness": witness})
+            else:
+                res["evaluations"] += 1
+                res["sigs"].add(f"{op}|{hist}|{'big' if big else 'small'}|ioerr-{sc}|{pclass}|{result}")
+                count(f"io_error_points_{op}", 1)
+                count(f"io_error_operation_returned_{result}", 1)
+                st = verdict.get("stats") or {}
+                count("io_error_retried_puts_judged", st.get("retried_puts_judged", 0))
+                count("io_error_damaged_file_left_by_failed_put", st.get("damaged_file_left_by_failed_put", 0))
+            shutil.rmtree(wk, ignore_errors=True)
     finally:
         shutil.rmtree(root, ignore_errors=True)
     return res
@@ -185,8 +233,9 @@ def run(pid, tier, seed, conf):
     scratch_root = os.environ.get("XV_SCRATCH_ROOT") or tempfile.gettempdir()
     n_seeds = conf["seeds"][t]
     max_points = conf["max_points"][t]
+    modes = tuple(conf.get("crash_modes", ("kill",)))
     scenarios = []
-    for op in OPS:
+    for op in conf.get("crash_ops", OPS):
         for hist in HISTS + (["subranges"] if op == "cacheput" else []):
             if op == "cacheinit" and hist == "empty":
                 continue
@@ -196,7 +245,7 @@ def run(pid, tier, seed, conf):
     m = {"evaluations": 0, "nontrivial": 0, "sigs": set(), "counters": {}, "samples": [], "violations": [], "violation_count": 0, "inconclusive": 0, "inconclusive_notes": []}
     inconclusive = []
     with cf.ThreadPoolExecutor(max_workers=int(os.environ.get("XV_JOBS", xvlib.NCPU))) as ex:
-        futs = [ex.submit(one_scenario, binp, op, hist, s, big, scratch_root, max_points) for (op, hist, s, big) in scenarios]
+        futs = [ex.submit(one_scenario, binp, op, hist, s, big, scratch_root, max_points, modes) for (op, hist, s, big) in scenarios]
         for f in cf.as_completed(futs):
             try:
                 r = f.result()
@@ -227,7 +276,7 @@ def replay(pid, v):
     w = v["witness"]
     binp = xvlib.bin_path("prodlike", "xv_full")
     # a single scenario restricted to the recorded ordinal: simplest is to re-run the whole scenario
-    r = one_scenario(binp, w["op"], w["hist"], w["seed"], w.get("big", False), tempfile.gettempdir(), 10 ** 6)
+    r = one_scenario(binp, w["op"], w["hist"], w["seed"], w.get("big", False), tempfile.gettempdir(), 10 ** 6, ("ioerr",) if w.get("mode") == "io-error" else ("kill",))
     sigs = {x["kf_sig"] for x in r["violations"]}
     print("replay: violations seen:", sorted(sigs))
     for x in r["violations"][:5]:
